@@ -291,6 +291,10 @@ package escape
 //@   ensures load_pointer: istype(instruction, *ssa.UnOp) && instruction.(*ssa.UnOp).Op == token.MUL && lang.IsNillableType(instruction.(*ssa.UnOp).Type()) ==> called(LoadField, g, _, _, _, _, _)
 //@   ensures send_pointer: istype(instruction, *ssa.Send) && lang.IsNillableType(instruction.(*ssa.Send).X.Type()) ==> called(StoreField, g, _, _, _, _)
 //@   ensures go_leaks_operands: istype(instruction, *ssa.Go) ==> called(CallUnknown, g, _, _, _)
+//@   option keep:ValueNode keep:Sprintf
+//@   macro goArgs() = instruction.(*ssa.Go).Call.Args
+//@   loop 9 invariant go_args_nodes: len(args) == len(goArgs()) && (forall j int :: 0 <= j && j < iter(9) && IsEscapeTracked(goArgs()[j].Type()) ==> args[j] == vnode(nodes, goArgs()[j]))
+//@   ensures go_leaks_tracked_operands: istype(instruction, *ssa.Go) ==> called(CallUnknown, g, where(a, forall j int :: 0 <= j && j < len(goArgs()) && IsEscapeTracked(goArgs()[j].Type()) ==> a[j] == vnode(nodes, goArgs()[j])), _, _)
 //@   ensures panic_leaks_operand: istype(instruction, *ssa.Panic) ==> called(CallUnknown, g, _, _, _)
 //@   ensures map_update_value: istype(instruction, *ssa.MapUpdate) && IsEscapeTracked(instruction.(*ssa.MapUpdate).Value.Type()) ==> called(StoreField, g, _, _, _, _)
 //@   ensures map_update_key: istype(instruction, *ssa.MapUpdate) && IsEscapeTracked(instruction.(*ssa.MapUpdate).Key.Type()) ==> called(StoreField, g, _, _, _, _)
